@@ -33,7 +33,7 @@ int64_t KillPgScan__rankForKilling__lambda_sortDescWithKillPrefs(CgroupContext c
 DEFINE_GHOST_FILTER(KillPgScan__rankForKilling__lambda_filter, KillPgScan__rankForKilling__lambda_filter)
 #define DOC_BETTER(x, f) (PREF(x) > PREF(f) || (PREF(x) == PREF(f) && DOC_KEY(x) > DOC_KEY(f)))
 vec_CgroupContext KillPgScan__rankForKilling(KillPgScan *self, OomdContext *ctx, vec_CgroupContext cgroups)
-  __CPROVER_requires(cgroups.n <= VEC_MAX && !g_sorted && ghost_exc == 0)
+  __CPROVER_requires(cgroups.n <= VEC_MAX && ghost_exc == 0)
   __CPROVER_assigns(g_copied, g_sorted, g_copy_vid, g_copy_src)
   __CPROVER_ensures(__CPROVER_return_value.n <= cgroups.n && ghost_exc == 0)
   /* the first choice is one of the given cgroups and is eligible */
